@@ -410,11 +410,18 @@ func (g *G) link(c ictx) Link {
 		g.nlabel++
 		l.Label = fmt.Sprintf("Lbl%d %s", g.nlabel, g.word())
 		l.C = []Inline{Text{caseVariant(g.s, l.Label)}}
+		if !c.oneLine && !c.noBreaks && coin(g.s, 1, 3) {
+			// the label (= link text) spreads over two lines: a soft break is label whitespace
+			parts := strings.SplitN(l.Label, " ", 2)
+			l.C = []Inline{Text{caseVariant(g.s, parts[0])}, Soft{}, Text{caseVariant(g.s, parts[1])}}
+			labelNLCount++
+		}
 	} else {
 		l.C = g.inlines(c, 3)
 		if l.Form == 1 {
 			g.nlabel++
 			l.Label = fmt.Sprintf("Lbl%d %s", g.nlabel, g.word())
+			l.LabelNL = !c.oneLine && !c.noBreaks && coin(g.s, 1, 3)
 		}
 	}
 	if l.Form != 0 {
@@ -439,6 +446,7 @@ func caseVariant(s Src, lab string) string {
 
 // ---------------- blocks ----------------
 
+var labelNLCount int
 var avoidWSOnly = true
 var excludedF19 int
 
